@@ -56,6 +56,29 @@ Definition chk03 (c : case) : nat :=
   else if negb (file_content_eqb (written fs' o) (written fsm o)) then 4
   else if cts_invb fsm dm && negb (cts_invb fs' d') then 6
   else if doc_eqb d' dm && file_eqb (written fs' o) (written fsm o) then 0 else 9.
+(* C11 (save half).  1: the save changed the document in memory (strict comparison, generator masked)
+   2: result differs   3: the file read back is not the document (layout-insensitive projection when pretty)
+   4: flat XML export differs from the model's   5: abstraction   6: (other operations) part map differs from the model's   9: fidelity *)
+Definition view_eqb_strict (fs1 : cfs) (d1 : cdoc) (fs2 : cfs) (d2 : cdoc) : bool :=
+  forallb (fun n => opt_eqb ccont_eqb (cview fs1 d1 n) (cview fs2 d2 n)) (cnames fs1 d1 ++ cnames fs2 d2).
+Definition chk11 (c : case) : nat :=
+  let '(fs, d, o, fs', d', r) := c in
+  let '((fsm, dm), rm) := cstep FIXED (fs, d) o in
+  if negb (cwfb fs' d') then 5
+  else match is_save o with
+       | Some (t, pk, pty) =>
+           if negb (out_eqb r rm) then 2
+           else match r with
+                | Done =>
+                    if negb (view_eqb_strict fs' d' fs d) then 1
+                    else if negb (saved_matches fs' d' o) then 3
+                    else if negb (file_content_eqb (written fs' o) (written fsm o)) then 4
+                    else if doc_eqb d' dm then 0 else 9
+                | _ => 0
+                end
+       | None => if negb (view_eqb fs' d' fsm dm) then 6 else if doc_eqb d' dm then 0 else 9
+       end.
+
 (* which variant of the code does the implementation follow on this step? (diagnosis only) *)
 Definition agrees (fx : fixes) (c : case) : bool :=
   let '(fs, d, o, fs', d', r) := c in
